@@ -116,6 +116,7 @@ def hist_units(tier):
             block = op in cpu.BLOCK_OPS or (op == 0xEF and pre is not None)
             if tier == "quick":
                 hs = [0, 2, 4] if block else ([0, 3] if op in (0x06, 0x07, 0x01, 0x04, 0x05) else ([0, 5] if op in (0xDE, 0xDF, 0xFF, 0xEF) else [0, 6]))
+                hs = hs + [7]      # tracing state (tracer attached) for every instruction
             else:
                 hs = list(range(nh))
             for h in hs:
